@@ -204,6 +204,20 @@ CLAIMED = {
              'low-energy cancellation are not evaluated.',
         technique='exact rational/trigonometric normal forms with substitution; interval sign domain',
     ),
+    'C13': dict(
+        category='other',
+        text='Exact normal forms of the crystal functions: d-spacing = (V/abc)*sqrt(1/R) with R equal to the triclinic '
+             'reciprocal-metric form, homogeneous of degree 2 in the Miller indices (=> inversion invariance, 1/n scaling) and '
+             'invariant under cyclic relabelling of the axes; unit-cell volume formula; Bragg angle = asin((hc/E)/(2d)) of the '
+             'same crystal/indices with the asin argument guarded to [-1,1] (error otherwise); Q = E sin(rel*theta_B)/hc; '
+             'structure factor grows per atom by occupancy x (f_re + i f_im) x (cos + i sin)(2pi H.r) with the factors of the '
+             'atom\'s own Z; flag table of f_re/f_im for all 12 valid combinations (additivity, f_im = 0 with the absorptive term '
+             'off), invalid flags are errors; Atomic_Factors evaluated at (Z_atom, E, q(H), debye).',
+        design_ref='DESIGN.md section 2, C13',
+        note='Not decided: numeric agreement with FF_Rayl/Fi/Fii, Debye-factor semantics, (0,0,0) reduction value. The per-Z '
+             'cache being written before it is read for every atom is the loop-carried fact used by C04.',
+        technique='exact rational/trigonometric normal forms; per-iteration loop snapshots; symmetry oracle',
+    ),
 }
 
 NOT_YET = {}
